@@ -313,9 +313,14 @@ def case_extract(case):
                 else:
                     kw[nm] = vals[nm]
             model = E.models.Model(grid, mapping=mapping, **kw)
-            oned, imat = model.extract_1d(
-                method, (Fraction(1, 2), Fraction(1, 2)), (1.5, 0.5),
-                ellipse={'radius': 1.0}, return_imat=True)
+            try:
+                oned, imat = model.extract_1d(
+                    method, (Fraction(1, 2), Fraction(1, 2)), (1.5, 0.5),
+                    ellipse={'radius': 1.0}, return_imat=True)
+            except ZeroDivisionError:
+                # exact arithmetic: the code divides by a concrete zero on
+                # this path (IEEE: NaN weights)
+                oned, imat = None, None
             out[kind] = (oned, imat, vals)
         mask = ell(None, None, None)
         return out, mask, (hx, hy, hz), names
@@ -330,7 +335,10 @@ def case_extract(case):
             ix, iy = mask.nonzero()
             bad = None
             empty = ix.size == 0
-            if empty:
+            if oned is None or out['general'][0] is None:
+                bad = "division by zero (weights undefined)"
+                sel, six, eix, siy, eiy = [], 0, 0, 0, 0
+            elif empty:
                 npaths['empty'] += 1
                 # fallback: midpoint of p0=(.5,.5), p1=(1.5,.5) -> (1, .5)
                 nodes_x = np.r_[0, np.cumsum(hx)]
@@ -710,7 +718,11 @@ def case_layered(case):
              (E.models.maps, 'ellipse_indices',
               E.models.maps.ellipse_indices),
              (E.models.meshes, 'TensorMesh', E.models.meshes.TensorMesh),
-             (mp, 'tqdm', mp.tqdm)]
+             (mp, 'tqdm', mp.tqdm),
+             (E.models.Model, '_check_positive_finite',
+              E.models.Model._check_positive_finite)]
+    # input validation is C14's subject (saves UF+NRA feasibility queries)
+    E.models.Model._check_positive_finite = lambda self, *a, **k: None
     mp.tqdm = None
     E.models.meshes.TensorMesh = _mesh_class(E)
     sv13 = c13.install(E)
@@ -725,12 +737,41 @@ def case_layered(case):
         empymod.bipole = bip
         X = build_layered(E, c, bip, method, mapping, aniso, mask)
         sim = X['sim']
-        sim.compute()
-        syn = np.array(sim.data.synthetic.data, dtype=object)
-        allnan = bool(X['nanpat'].all())
-        grad = None
-        if not allnan:
-            grad = np.array(sim.gradient, dtype=object)
+        try:
+            sim.compute()
+            syn = np.array(sim.data.synthetic.data, dtype=object)
+            allnan = bool(X['nanpat'].all())
+            grad = None
+            if not allnan:
+                grad = np.array(sim.gradient, dtype=object)
+            X['obsd'] = np.array(sim.data.observed.data, dtype=object)
+            if grad is not None:
+                X['wts'] = np.array(sim.data.weights.data, dtype=object)
+                X['props'] = {nm: np.array(getattr(sim.model, nm),
+                                           dtype=object, copy=True)
+                              for nm in X['names']}
+            # second round on the SAME model object after an in-place
+            # update of its values (index assignment for the horizontal,
+            # setter for the vertical property) and clean('computed')
+            sig2 = {nm: sym_array('T'+nm[-1], (3,), positive=True)
+                    for nm in X['names']}
+            M = X['M']
+            p2 = M.forward(sig2['property_x'])
+            for k in range(3):
+                sim.model.property_x[:, :, k] = p2[k]
+            if 'property_z' in sig2:
+                pz = M.forward(sig2['property_z'])
+                a = np.empty(sim.model.shape, dtype=object)
+                for k in range(3):
+                    a[:, :, k] = pz[k]
+                sim.model.property_z = a.view(symx.SymArray)
+            sim.clean('computed')
+            sim.compute()
+            X['sig2'] = sig2
+            X['syn2'] = np.array(sim.data.synthetic.data, dtype=object)
+        except ZeroDivisionError:
+            X['divzero'] = True
+            return X, bip, None, None
         return X, bip, syn, grad
 
     try:
@@ -738,7 +779,15 @@ def case_layered(case):
             c.pc = pc
             t1 = time.time()
             pats.add(tuple(X['nanpat'].ravel().tolist()))
-            bad = check_layered(E, c, X, bip, syn, grad)
+            if X.get('divzero'):
+                bad = "division by zero in the extraction (weights undefined)"
+            else:
+                bad = check_layered(E, c, X, bip, syn, grad)
+            if bad is None:
+                bad = check_layered(E, c, X, bip, X['syn2'], None,
+                                    sig=X['sig2'])
+                if bad:
+                    bad = "after an in-place model update: "+bad
             obs.append(ob(
                 f"NaN pattern {X['nanpat'].astype(int).ravel().tolist()}: "
                 f"finite-data triples hold Bipole(layering, own source/"
@@ -783,8 +832,9 @@ def _oracle_resp(E, c, bip, X, sig_h, sig_v, s, r):
                mpermV=None, squeeze=True, verb=1)
 
 
-def check_layered(E, c, X, bip, syn, grad):
-    sim, sig, nanpat = X['sim'], X['sig'], X['nanpat']
+def check_layered(E, c, X, bip, syn, grad, sig=None):
+    sim, nanpat = X['sim'], X['nanpat']
+    sig = sig or X['sig']
     vti = 'property_z' in sig
     sig_h = list(sig['property_x'])
     sig_v = list(sig['property_z']) if vti else None
@@ -819,8 +869,8 @@ def check_layered(E, c, X, bip, syn, grad):
     if grad.shape != ((len(comps),) if vti else ())+tuple(shape):
         return f"gradient shape {grad.shape}"
     garr = grad if vti else grad[None, ...]
-    obsd = sim.data.observed.data
-    wts = sim.data.weights.data
+    obsd = X['obsd']
+    wts = X['wts']
     for ci, nm in enumerate(comps):
         for k in range(nz):
             tot = Q(Fraction(0))
@@ -844,7 +894,7 @@ def check_layered(E, c, X, bip, syn, grad):
                         return acc/2
                     tot = tot + (phi(pert)-phi(base))/delta
             # chain rule d sigma / d p of the mapping at this layer
-            p = getattr(sim.model, nm)[0, 0, k]
+            p = X['props'][nm][0, 0, k]
             sg = X['M'].backward(np.array([p], dtype=object).view(
                 symx.SymArray))[0]
             dsdp = c14.ddx(c, symx.qt(sg), symx.qt(p))
@@ -1048,6 +1098,25 @@ def replay_layered(cex):
                                       atol=1e-6*abs(ref)):
                         msgs.append(f"gradient comp {ci} layer {k}: sum "
                                     f"{got:.6e} vs FD of misfit {ref:.6e}")
+        if not msgs and 'in-place' in str(cex.get('what')):
+            sig_h2 = np.array([2.0, 0.4, 1.5])
+            sig_v2 = np.array([1.0, 0.3, 0.7])
+            for k in range(3):
+                sim.model.property_x[:, :, k] = M.forward(sig_h2)[k]
+            if aniso == 'VTI':
+                sim.model.property_z = np.ones(grid.shape_cells) * \
+                    M.forward(sig_v2)[None, None, :]
+            sim.clean('computed')
+            sim.compute()
+            syn2 = sim.data.synthetic.data
+            for r in range(2):
+                ref = direct(sig_h2, sig_v2, r)
+                for f in range(2):
+                    if not (nan[0, r, f] and not allnan) and not np.isclose(
+                            syn2[0, r, f], ref[f], rtol=1e-8):
+                        msgs.append(f"after an in-place model update the "
+                                    f"response ({r},{f}) is not the one of "
+                                    f"the new layering")
     except Exception as e:      # noqa
         msgs.append(f"raised {e!r}"[:200])
     finally:
